@@ -172,17 +172,38 @@ Fixpoint first_unsyncable (caller:thread) (ts:list thread) : option N :=
     else Some (t_tid t)
   end.
 
+(** The length the kernel counts is the one AFTER its conversion of the classic program to the internal instruction set
+    (bpf_migrate_filter / bpf_convert_filter, net/core/filter.c; always taken on x86_64 and arm64, where no classic JIT
+    exists): a prologue of three instructions (A := 0; X := 0; CTX := R1), then per classic instruction
+      RET k                       -> 2   (mov r0, k; exit)
+      conditional jump            -> 1   when jf = 0, or when jt = 0 and the operation is JEQ / JGT / JGE (negated form);
+                                     2   otherwise (Jxx + JA);
+                                     +1  when the operand is an immediate with its sign bit set (loaded into a register first)
+      everything else             -> 1   (exact for the loads of seccomp_data, JA and the ALU / memory instructions of the
+                                          programs seccomp_check_filter admits, except division by X on kernels that
+                                          still emit a run-time zero test - the library emits neither)
+    Validated on the running kernel by filter chains filled up to the limit in steps of about twenty instructions
+    (lib/loaderchecks.py, histories with policy kinds big / mid). *)
+Definition conv_len (f:sock_filter) : N :=
+  let code := sf_code f in
+  if code =? 6 then 2
+  else if (code mod 8 =? 5) && negb (code / 16 =? 0) then
+    let op := code / 16 in
+    (if ((code / 8) mod 2 =? 0) && (2147483648 <=? sf_k f) then 1 else 0) +
+    (if sf_jf f =? 0 then 1
+     else if (sf_jt f =? 0) && ((op =? 1) || (op =? 2) || (op =? 3)) then 1
+     else 2)
+  else 1.
+Definition internal_len (p:list sock_filter) : N := fold_left (fun a f => a + conv_len f) p 3.
+
 Fixpoint prog_len_of (progs:list (N * list sock_filter)) (fid:N) : N :=
   match progs with
   | [] => 0
-  | (f, p) :: r => if f =? fid then N.of_nat (length p) else prog_len_of r fid
+  | (f, p) :: r => if f =? fid then internal_len p else prog_len_of r fid
   end.
 
-(** seccomp_attach_filter: new length plus, for every filter already in the chain, its length + 4.
-    APPROXIMATION: the kernel counts instructions AFTER its internal conversion of the classic program
-    (a few more than the classic length: measured, 7 filters of 4096 instructions leave room for fewer than
-    4068 more), so the real limit is reached somewhat earlier than here. No theorem depends on the
-    threshold, and the generated histories stay far away from it. *)
+(** seccomp_attach_filter: the (internal) length of the new program plus, for every filter already in the chain, its
+    (internal) length + 4; [newlen] is the internal length of the new program. *)
 Definition path_len (st:kstate) (caller:thread) (newlen:N) : N :=
   fold_left (fun acc fid => acc + prog_len_of (ks_progs st) fid + 4) (t_filters caller) newlen.
 
@@ -226,7 +247,7 @@ Definition set_mode_filter (st:kstate) (caller:thread) (flags:N) (prog:option (N
     if t_strict caller then (st, MINUS1, EINVAL) else
     if has_flag flags FLAG_NEW_LISTENER && existsb (fun f => existsb (N.eqb f) (ks_listeners st)) (t_filters caller)
     then (st, MINUS1, EBUSY) else
-    if MAX_INSNS_PER_PATH <? path_len st caller len then (st, MINUS1, ENOMEM) else
+    if MAX_INSNS_PER_PATH <? path_len st caller (internal_len p) then (st, MINUS1, ENOMEM) else
     match (if has_flag flags FLAG_TSYNC then first_unsyncable caller (ks_threads st) else None) with
     | Some bad => if has_flag flags FLAG_TSYNC_ESRCH then (st, MINUS1, ESRCH) else (st, bad, 0)
     | None => (attach st caller flags p, attach_r1 st flags, 0)
